@@ -220,14 +220,15 @@ def run_history(res: Result, rng, nsteps: int, tag: str):
                 record(ctx, b, cb)
                 if had:
                     res.features.add("op-on-earlier-compiled")
-                opname = rng.choice(["integrate", "multiply", "conjugate", "concatenate", "differentiate"])
+                opname = rng.choice(["integrate", "multiply", "conjugate", "concatenate", "differentiate", "differentiate"])
+                exp_meta = None
                 use_module = action == "module-op"
                 if opname == "integrate":
                     if "poly" in kinds:
                         continue
                     z = Scope(pipes.random_subset(rng, sorted(a.scope)))
                     out = PL.integrate(ca, z) if use_module else ctx.integrate(ca, z)
-                    exp_ops, exp_kind = (a,), "INTEGRATION"
+                    exp_ops, exp_kind, exp_meta = (a,), "INTEGRATION", ("scope", z)
                 elif opname == "multiply":
                     out = PL.multiply(ca, cb) if use_module else ctx.multiply(ca, cb)
                     exp_ops, exp_kind = (a, b), "MULTIPLICATION"
@@ -242,7 +243,7 @@ def run_history(res: Result, rng, nsteps: int, tag: str):
                         continue
                     order = rng.choice([1, 2])
                     out = PL.differentiate(ca, order=order) if use_module else ctx.differentiate(ca, order=order)
-                    exp_ops, exp_kind = (a,), "DIFFERENTIATION"
+                    exp_ops, exp_kind, exp_meta = (a,), "DIFFERENTIATION", ("order", order)
                 # the result must be the compilation (in this context) of the symbolic operator result
                 if not ctx.has_symbolic(out):
                     res.violate("operator-result-unregistered", f"{name}: result of {opname} is unknown to its context")
@@ -250,6 +251,8 @@ def run_history(res: Result, rng, nsteps: int, tag: str):
                     sres = ctx.get_symbolic_circuit(out)
                     if sres.operation is None or sres.operation.operator.name != exp_kind or tuple(sres.operation.operands) != exp_ops:
                         res.violate("operator-result-wrong-operation", f"{name}: symbolic result has operation {sres.operation and sres.operation.operator.name} / wrong operands")
+                    elif exp_meta is not None and sres.operation.metadata.get(exp_meta[0]) != exp_meta[1]:
+                        res.violate("operator-result-wrong-arguments", f"{name}: {opname} returned the compilation of a result with {exp_meta[0]}={sres.operation.metadata.get(exp_meta[0])}, asked for {exp_meta[1]}")
                     record(ctx, sres, out)
                 res.features.add("op:" + opname)
             elif action == "lookup-foreign":
